@@ -10,7 +10,7 @@ META = {
     'functions': ['enspara.tpt.tpt._get_data_from_tprob', 'enspara.tpt.tpt.reactive_fluxes', 'enspara.tpt.tpt.net_fluxes',
                   'enspara.tpt.tpt.reactive_populations', 'enspara.tpt.core.committors'],
     'bounds': {'quick': 'reversible T with its stationary populations (given), n<=3 dense, every disjoint source/sink set pair; '
-                        'n=4 on a nearest-neighbour chain pattern; each of the 7 scipy.sparse containers at n=3',
+                        'n=4 on a nearest-neighbour chain pattern; each of the 7 scipy.sparse containers at n=3; column-major and non-contiguous dense input',
                'thorough': 'n=4 dense, chain, ring and star patterns with one- and two-state source/sink sets; n=5 chains (reported inconclusive where z3 gives up)'},
     'stubs': ['spsolve on a dense operand = fresh x with A.x = b', 'scipy.sparse classes = symbolic shadow symnp/sparse.py (result formats, element types, copy/share rules of the operations used; np.matrix results as 2-D arrays; stored pattern of a matrix built from dense = cells that are not the constant zero); validated against the installed scipy by the `sparse-shadow-conformance` job on every run; replays run the real scipy classes'],
     'assumptions': ['exact real arithmetic (QF_NRA)', 'detailed balance pi_i T_ij = pi_j T_ji, pi>0, sum pi = 1, T row-stochastic'],
@@ -36,6 +36,9 @@ def jobs(tier):
         add('n=3,%s,[0]->[2]' % fmt, n=3, sources=[0], sinks=[2], container=fmt)
         if fmt in ('csr', 'csc') or not q:
             add('n=3,%s,[0]->[1,2]' % fmt, n=3, sources=[0], sinks=[1, 2], container=fmt)
+    # column-major / non-contiguous dense input (a transposed or time-reversed chain, pandas .values, loadmat output)
+    for layout in ('F', 'view'):
+        add('n=3,[0]->[2],%s-layout' % layout, n=3, sources=[0], sinks=[2], layout=layout)
     chain = [[abs(i - j) <= 1 for j in range(4)] for i in range(4)]
     add('n=4,chain,[0]->[3]', n=4, sources=[0], sinks=[3], zero_pattern=chain)
     if not q:
